@@ -334,3 +334,50 @@ func c05CannotThrow(p *Prog) *RuleResult {
 	r.Anchor("kinds for which couldPotentiallyThrow answers 'cannot throw'", safe >= 4)
 	return r
 }
+
+// C05/R5 (also C14/R8) implied feature bits are applied unmasked.
+//
+// The lowering passes test one feature bit each (`for await` looks at ForAwait, `yield*` in an async
+// generator at AsyncGenerator, …) and rely on bundler.fixInvalidUnsupportedJSFeatureOverrides
+// having closed the set under implication: if async functions are unsupported, async generators,
+// for-await and top-level await are unsupported too, whatever the user's `supported` map says about
+// them. The implied bits must therefore be OR-ed in as given; masking them by the user's explicit
+// overrides leaves `for await` inside the plain generator that replaces a lowered async function.
+func c05ImpliedFeaturesUnmasked(p *Prog, name string) *RuleResult {
+	r := NewRule(name, "fixInvalidUnsupportedJSFeatureOverrides ORs the implied feature bits into the unsupported set unconditionally and unmasked (lowering passes test single bits and rely on the set being closed under implication)")
+	fn := p.FindFunc("bundler.fixInvalidUnsupportedJSFeatureOverrides")
+	if !r.Anchor("bundler.fixInvalidUnsupportedJSFeatureOverrides", fn != nil) {
+		return r
+	}
+	var implied *ssa.Parameter
+	for _, prm := range fn.Params {
+		if prm.Name() == "implied" {
+			implied = prm
+		}
+	}
+	if !r.Anchor("parameter implied", implied != nil) {
+		return r
+	}
+	n := 0
+	eachInstr(fn, func(b *ssa.BasicBlock, in ssa.Instruction) {
+		st, ok := in.(*ssa.Store)
+		if !ok {
+			return
+		}
+		fa, ok := st.Addr.(*ssa.FieldAddr)
+		if !ok || fieldAddrName(fa) != "UnsupportedJSFeatures" {
+			return
+		}
+		n++
+		r.Instances++
+		key := "fixInvalidUnsupportedJSFeatureOverrides update of UnsupportedJSFeatures"
+		bo, ok := st.Val.(*ssa.BinOp)
+		if ok && bo.Op == token.OR && (bo.X == ssa.Value(implied) || bo.Y == ssa.Value(implied)) {
+			r.OK(key, true, "unsupported |= implied, with the parameter itself")
+		} else {
+			r.Fail(key, p.Pos(st.Pos()), "the unsupported-feature set is not updated with the implied bits as given ("+ssaExpr(st.Val, 0)+"): a dependent feature the user listed as supported stays on although the feature it needs is off, and the pass that lowers the base feature emits the dependent syntax into code where it is invalid")
+		}
+	})
+	r.Anchor("the update of UnsupportedJSFeatures", n >= 1)
+	return r
+}
